@@ -328,4 +328,146 @@ theorem splitLines_stream (segs : List (Segment σ)) :
   · rename_i h; simp [List.isEmpty_iff.mp h]
   · simp
 
+/-! ### apply_style / filter_control / strip_* / remove_color / get_shape -/
+
+def textCtl (s : Segment σ) : List Char × Bool := (s.text, s.control)
+
+theorem applyStyle_textCtl (add : σ → σ → σ) (truthy : σ → Bool) (segs : List (Segment σ)) (st ps : Option σ) :
+    (applyStyle add truthy segs st ps).map textCtl = segs.map textCtl := by
+  unfold applyStyle
+  cases st <;> cases ps <;> simp [List.map_map, Function.comp_def, textCtl]
+
+theorem applyStyle_control_unstyled (add : σ → σ → σ) (truthy : σ → Bool) (segs : List (Segment σ)) (st ps : Option σ)
+    (h : st.isSome ∨ ps.isSome) :
+    ∀ s ∈ applyStyle add truthy segs st ps, s.control = true → s.style = none := by
+  unfold applyStyle
+  intro s hs hc
+  cases st with
+  | none =>
+    cases ps with
+    | none => simp at h
+    | some p =>
+      simp only [List.mem_map] at hs
+      obtain ⟨a, _, rfl⟩ := hs
+      simp only at hc ⊢
+      simp [hc]
+  | some t =>
+    cases ps with
+    | none =>
+      simp only [List.mem_map] at hs
+      obtain ⟨a, _, rfl⟩ := hs
+      simp only at hc ⊢
+      simp [hc]
+    | some p =>
+      simp only [List.mem_map, List.map_map] at hs
+      obtain ⟨a, _, rfl⟩ := hs
+      simp only [Function.comp] at hc ⊢
+      simp [hc]
+
+theorem stream_chars (segs : List (Segment σ)) :
+    (stream segs).map (fun x => (x.1, x.2.2)) = segs.flatMap (fun s => s.text.map (fun c => (c, s.control))) := by
+  induction segs with
+  | nil => rfl
+  | cons a r ih => simp [stream_cons, List.map_append, ih, List.map_map, Function.comp_def]
+
+theorem chars_of_textCtl (a b : List (Segment σ)) (h : a.map textCtl = b.map textCtl) :
+    a.flatMap (fun s => s.text.map (fun c => (c, s.control))) = b.flatMap (fun s => s.text.map (fun c => (c, s.control))) := by
+  have e : ∀ l : List (Segment σ), l.flatMap (fun s => s.text.map (fun c => (c, s.control))) =
+      (l.map textCtl).flatMap (fun p => p.1.map (fun c => (c, p.2))) := by
+    intro l; induction l with
+    | nil => rfl
+    | cons x xs ih => simp [textCtl, ih]
+  rw [e a, e b, h]
+
+theorem lineLength_of_textCtl (cw : Char → Nat) (a b : List (Segment σ)) (h : a.map textCtl = b.map textCtl) :
+    lineLength cw a = lineLength cw b := by
+  have e : ∀ l : List (Segment σ), lineLength cw l =
+      ((l.map textCtl).map (fun p => if p.2 then 0 else cellLen cw p.1)).sum := by
+    intro l
+    induction l with
+    | nil => rfl
+    | cons x xs ih =>
+      simp only [lineLength_cons, List.map_cons, List.sum_cons, ih]
+      simp only [Segment.cellLength, textCtl, Nat.add_right_cancel_iff]
+      rfl
+  rw [e a, e b, h]
+
+theorem stripStyles_textCtl (segs : List (Segment σ)) : (stripStyles segs).map textCtl = segs.map textCtl := by
+  simp [stripStyles, List.map_map, Function.comp_def, textCtl]
+
+theorem removeColor_textCtl (truthy : σ → Bool) (noColor : σ → σ) (segs : List (Segment σ)) :
+    (removeColor truthy noColor segs).map textCtl = segs.map textCtl := by
+  simp [removeColor, List.map_map, Function.comp_def, textCtl]
+
+theorem stripLinks_textCtl (truthy : σ → Bool) (noLink : σ → σ) (segs : List (Segment σ)) :
+    (stripLinks truthy noLink segs).map textCtl = segs.map textCtl := by
+  unfold stripLinks
+  rw [List.map_map]
+  apply List.map_congr_left
+  intro s _
+  simp only [Function.comp, textCtl]
+  cases hs : s.style with
+  | none => rfl
+  | some st =>
+    simp only
+    by_cases hc : s.control = true
+    · simp [hc]
+    · have : s.control = false := by simpa using hc
+      simp [this]
+
+theorem filterControl_flag (segs : List (Segment σ)) (b : Bool) : ∀ s ∈ filterControl segs b, s.control = b := by
+  intro s hs
+  simp only [filterControl, List.mem_filter, beq_iff_eq] at hs
+  exact hs.2
+
+theorem filterControl_count (segs : List (Segment σ)) :
+    (filterControl segs true).length + (filterControl segs false).length = segs.length := by
+  induction segs with
+  | nil => rfl
+  | cons a r ih =>
+    unfold filterControl at ih ⊢
+    simp only [List.filter_cons]
+    cases h : a.control
+    · simp only [h, show (false == true) = false from rfl, show (false == false) = true from rfl,
+        Bool.false_eq_true, if_false, if_true, List.length_cons]
+      omega
+    · simp only [h, show (true == true) = true from rfl, show (true == false) = false from rfl,
+        Bool.false_eq_true, if_false, if_true, List.length_cons]
+      omega
+
+theorem filterControl_lineLength (cw : Char → Nat) (segs : List (Segment σ)) :
+    lineLength cw (filterControl segs false) = lineLength cw segs := by
+  induction segs with
+  | nil => rfl
+  | cons a r ih =>
+    unfold filterControl at ih ⊢
+    simp only [List.filter_cons]
+    cases h : a.control
+    · simp only [h, show (false == false) = true from rfl, if_true, lineLength_cons, ih]
+    · simp only [h, show (true == false) = false from rfl, Bool.false_eq_true, if_false, lineLength_cons, ih,
+        Segment.cellLength, if_true]
+      omega
+
+theorem filterControl_sublist (segs : List (Segment σ)) (b : Bool) : (filterControl segs b).Sublist segs := by
+  unfold filterControl; exact List.filter_sublist
+
+theorem foldl_max_ge_nat (xs : List Nat) : ∀ (a : Nat), a ≤ xs.foldl max a ∧ ∀ x ∈ xs, x ≤ xs.foldl max a := by
+  induction xs with
+  | nil => intro a; simp
+  | cons y ys ih =>
+    intro a
+    simp only [List.foldl_cons]
+    have := ih (max a y)
+    refine ⟨by omega, ?_⟩
+    intro x hx
+    rcases List.mem_cons.mp hx with hx | hx
+    · subst hx; omega
+    · exact this.2 x hx
+
+theorem getShape_spec (cw : Char → Nat) (lines : List (List (Segment σ))) :
+    (getShape cw lines).2 = lines.length ∧ ∀ l ∈ lines, lineLength cw l ≤ (getShape cw lines).1 := by
+  refine ⟨rfl, ?_⟩
+  intro l hl
+  exact (foldl_max_ge_nat (lines.map (lineLength cw)) 0).2 _ (List.mem_map_of_mem hl)
+
 end RichModel
